@@ -458,3 +458,104 @@ fn __verif_n_trace_corpus() {
         }
     }
 }
+
+/// Hand-written Sierra shapes that the Cairo compiler never emits but that `compile()` accepts, run
+/// on the VM with the same two trace-level checks (C17's quantifier is "forall programs").
+fn handwritten() -> Vec<(&'static str, &'static str, &'static str, Vec<Vec<u128>>)> {
+    vec![
+        ("finalize_locals without locals, after ap has moved", "main", r#"
+type felt252 = felt252;
+libfunc st = store_temp<felt252>;
+libfunc dupf = dup<felt252>;
+libfunc dropf = drop<felt252>;
+libfunc fin = finalize_locals;
+libfunc call_lf = function_call<user@late_finalize>;
+dupf([0]) -> ([0], [1]);
+st([1]) -> ([1]);
+dropf([1]) -> ();
+fin() -> ();
+st([0]) -> ([0]);
+return([0]);
+st([1]) -> ([2]);
+st([0]) -> ([0]);
+call_lf([0]) -> ([3]);
+dropf([3]) -> ();
+st([2]) -> ([2]);
+return([2]);
+late_finalize@0([0]: felt252) -> (felt252);
+main@6([0]: felt252, [1]: felt252) -> (felt252);
+"#, vec![vec![7, 5], vec![0, 0]]),
+        ("locals allocated late and a call across them", "main", r#"
+type felt252 = felt252;
+type UF = Uninitialized<felt252>;
+libfunc st = store_temp<felt252>;
+libfunc dupf = dup<felt252>;
+libfunc dropf = drop<felt252>;
+libfunc al = alloc_local<felt252>;
+libfunc fin = finalize_locals;
+libfunc sl = store_local<felt252>;
+libfunc call_id = function_call<user@id>;
+st([0]) -> ([0]);
+return([0]);
+al() -> ([2]);
+fin() -> ();
+sl([2], [1]) -> ([3]);
+st([0]) -> ([0]);
+call_id([0]) -> ([4]);
+dropf([4]) -> ();
+st([3]) -> ([3]);
+return([3]);
+id@0([0]: felt252) -> (felt252);
+main@2([0]: felt252, [1]: felt252) -> (felt252);
+"#, vec![vec![1, 9]]),
+        ("dummy_function_call with a declared known ap change", "h", r#"
+type felt252 = felt252;
+libfunc st = store_temp<felt252>;
+libfunc dummy = dummy_function_call<user@g, 0, 1, felt252, 1, felt252>;
+st([0]) -> ([0]);
+return([0]);
+st([0]) -> ([0]);
+dummy([0]) -> ([1]);
+st([1]) -> ([1]);
+return([1]);
+g@0([0]: felt252) -> (felt252);
+h@2([0]: felt252) -> (felt252);
+"#, vec![vec![3]]),
+    ]
+}
+
+#[test]
+fn __verif_n_trace_handwritten() {
+    std::panic::set_hook(Box::new(|_| {}));
+    let configs: Vec<(&str, MetadataComputationConfig)> = vec![
+        ("linear solvers", MetadataComputationConfig::default()),
+        ("equation solvers", MetadataComputationConfig { linear_gas_solver: false, linear_ap_change_solver: false, ..Default::default() }),
+    ];
+    let (mut cases, mut instances) = (0u64, 0usize);
+    let mut fails: Vec<(String, String)> = vec![];
+    let mut skipped = 0u64;
+    for (name, fname, text, arglists) in handwritten() {
+        let Ok(program) = cairo_lang_sierra::ProgramParser::new().parse(text) else { skipped += 1; println!("VERIF-N id=N/n_trace_corpus/skip status=skip why=\"hand-written `{name}` does not parse\""); continue };
+        for (cname, config) in &configs {
+            for args in &arglists {
+                let what = format!("hand-written Sierra `{name}`: {fname}({args:?}), {cname}");
+                let h = std::thread::Builder::new().stack_size(256 << 20).spawn({ let (program, config, args, fname) = (program.clone(), config.clone(), args.clone(), fname.to_string()); move || catch_unwind(AssertUnwindSafe(|| one_run(&program, &config, &fname, &args, 100_000_000))) }).unwrap();
+                match h.join() {
+                    Ok(Ok(Ok((_, c17, n)))) => { cases += 1; instances += n; if let Some(w) = c17 { if !fails.iter().any(|f| f.0.contains(name)) { fails.push((what, w)); } } }
+                    Ok(Ok(Err(e))) => { skipped += 1; println!("VERIF-N id=N/n_trace_corpus/skip status=skip why=\"{}: {}\"", what.replace('"', "'"), e.replace('"', "'").replace('\n', " ")); }
+                    _ => skipped += 1,
+                }
+            }
+        }
+    }
+    let bound = format!("{cases} runs of {} hand-written Sierra shapes ({skipped} skipped), {instances} dynamic call instances", handwritten().len());
+    // one obligation per shape, so that a shape that is a recorded finding stays one named obligation
+    for (name, ..) in handwritten() {
+        let id: String = name.chars().take(60).collect::<String>().replace(' ', "_").replace(',', "");
+        match fails.iter().find(|f| f.0.contains(name)) {
+            Some((input, why)) => println!("VERIF-N id=N/n_trace_corpus/handwritten_ap_change:{id} props=C17 status=fail key=\"{name}\" input=\"{}\" detail=\"{}: {}\" bound=\"{bound}\"", input.replace('"', "'"), input.replace('"', "'"), why.replace('"', "'")),
+            None if cases == 0 => println!("VERIF-N id=N/n_trace_corpus/handwritten_ap_change:{id} props=C17 status=unknown"),
+            None => println!("VERIF-N id=N/n_trace_corpus/handwritten_ap_change:{id} props=C17 status=ok cases={} distinct={} bound=\"{bound}\"", cases, instances.max(1)),
+        }
+    }
+}
